@@ -32,6 +32,8 @@ SHIM_DROP = "subtask::drop"
 SHIM_CANCEL = "subtask::cancel"
 PTR_ADD = re.compile(r"ptr::mut_ptr::.*::add$")
 LEAKERS = ["mem::forget", "ManuallyDrop::new", "Box::leak", "Box::into_raw", "Cleanup::forget", "MaybeUninit::new"]
+DUPLICATORS = ["ptr::read", "ptr::read_unaligned", "ptr::read_volatile", "mem::transmute_copy", "ptr::copy",
+               "ptr::copy_nonoverlapping", re.compile(r"ptr::(const_ptr|mut_ptr)::.*::(read|read_unaligned|read_volatile|copy_to|copy_from)(_nonoverlapping)?$")]
 INF = float("inf")
 
 
@@ -659,6 +661,19 @@ def one(rep, c, cfg):
             rep.ob("R21.3", f"start: InProgress.subtask = NonZero(packed >> 4) wrapped in SubtaskHandle {tag}", ok, det, f.loc(b))
         rep.ob("R21.3", f"start: the buffer is not dropped or forgotten inside start {tag}",
                not state_drops(f, r"rt::Cleanup\b") and not f.calls(LEAKERS), "", f.loc())
+        # the buffer is released by Drop for Cleanup: one dealloc of (self.ptr, self.layout) on every path
+        cd = c.method("Cleanup", "drop", trait="Drop")
+        rep.saw(cd)
+        de = cd.calls("alloc::dealloc")
+        rep.floor("R21.3", f"dealloc sites in Drop for Cleanup {tag}", len(de), 1)
+        rep.ob("R21.3", f"Drop for Cleanup: deallocates once on every path {tag}",
+               len(de) == 1 and cd.all_paths_pass(0, cd.returns(), [k.bb for k in de]) and not any(cd.in_cycle(k.bb) for k in de),
+               f"{len(de)} dealloc sites", cd.loc())
+        for k in de:
+            a0 = cd.origin(k.args[0])
+            ok = _is_call(a0, "NonNull::as_ptr", ()) and _is_arg(cd.origin(a0["call"].args[0]), 1, (".ptr",)) and \
+                _is_arg(cd.origin(k.args[1]), 1, (".layout",))
+            rep.ob("R21.3", f"Drop for Cleanup: deallocates (self.ptr, self.layout) {tag}", ok, "", cd.loc(k.bb))
         # ptr_results: the same offset is used to read the results
         g = c.method("InProgress", "ptr_results")
         rep.saw(g)
@@ -714,6 +729,15 @@ def one(rep, c, cfg):
                     rep.ob("R21.4", f"no {mir.norm(k.callee).split('::')[-1]} of a subtask handle / state / buffer: site in {fn_short(f)} {tag}",
                            False, f"{k.callee}({', '.join(k.arg_types)})", f.loc(k.bb))
         rep.floor("R21.4", f"forget / ManuallyDrop / leak sites scanned in the crate {tag}", nscan, 5)
+        ndup = 0
+        for f in c.fns.values():
+            for k in f.calls(DUPLICATORS):
+                if any(owned.search(t) or re.search(r"rt::Cleanup\b", t) for t in k.arg_types + [k.ga]):
+                    ndup += 1
+                    rep.ob("R21.4", f"no bitwise copy ({mir.norm(k.callee).split('::')[-1]}) of a subtask handle / state / buffer: site in {fn_short(f)} {tag}",
+                           False, f"{k.callee}({', '.join(k.arg_types)})", f.loc(k.bb))
+        rep.ob("R21.4", f"no bitwise copy (ptr::read / transmute_copy / ptr::copy) of SubtaskHandle, InProgress, Start, Cleanup {tag}",
+               ndup == 0, f"{ndup} sites", "")
         rep.ob("R21.4", f"no forget / ManuallyDrop / leak of SubtaskHandle, InProgress, Start or in subtask.rs {tag}",
                nleak == 0, f"{nleak} sites", "")
 
@@ -778,6 +802,40 @@ def one(rep, c, cfg):
                    not (f.reachable(b) & set(canc)) and not calls_in(f, f.reachable(b) - {b}, ["WaitableOp::start", "WaitableOp::in_progress_update"]),
                    "", f.loc(b))
         rep.ob("R21.5", f"cancel: never starts the operation {tag}", not f.calls("WaitableOp::start"), "", f.loc())
+        for b in canc:
+            rep.ob("R21.5", f"cancel: in_progress_cancel at most once on a path {tag}",
+                   not f.in_cycle(b) and all(b2 == b or b2 not in f.reachable(b) for b2 in canc),
+                   "the cancel built-in can be invoked a second time", f.loc(b))
+        # a status delivered before the cancellation is processed first; if it completed the call, nothing is cancelled
+        pcs = f.calls("WaitableOperation::poll_complete_with_code")
+        took = 0
+        for sb, m, so in discr_switches(f, ty_sub="Option<u32>"):
+            of = so.get("of", {})
+            if not (of.get("kind") == "call" and of["call"].matches("Option::take")):
+                continue
+            took += 1
+            some_t = variant_target(m, "Some")
+            first = []
+            for q in pcs:
+                a = _agg_of(f, f.origin(q.args[2]))
+                if a and a[1] == "Some" and a[2][0].get("kind") == "call" and a[2][0]["call"].bb == of["call"].bb and \
+                        _fields(a[2][0].get("proj")) == ["as Some", ".0"]:
+                    first.append(q)
+            rep.ob("R21.5", f"cancel: a delivered status is processed before in_progress_cancel {tag}",
+                   some_t is not None and bool(first) and f.all_paths_pass(some_t, canc, [q.bb for q in first]),
+                   "the cancel built-in is reachable from the Some(code) arm without poll_complete_with_code(Some(code))", f.loc(sb))
+            for q in first:
+                found = False
+                for pb, pm, po in discr_switches(f, ty_sub="Poll<"):
+                    pof = po.get("of", {})
+                    if pof.get("kind") == "call" and pof["call"].bb == q.bb:
+                        found = True
+                        rt_ = variant_target(pm, "Ready")
+                        rep.ob("R21.5", f"cancel: a call completed by the delivered status is not cancelled {tag}",
+                               rt_ is not None and not (f.reachable(rt_) & set(canc)),
+                               "the Ready arm of the delivered status reaches the cancel built-in", f.loc(pb))
+                rep.ob("R21.5", f"cancel: the outcome of the delivered status is inspected {tag}", found, "", f.loc(q.bb))
+        rep.floor("R21.5", f"delivered-status tests in WaitableOperation::cancel {tag}", took, 1)
         # Drop: a finished operation is not cancelled
         d = c.method("WaitableOperation", "drop", trait="Drop")
         rep.saw(d)
@@ -834,6 +892,8 @@ def one(rep, c, cfg):
         ups = g.calls("WaitableOp::in_progress_update")
         rep.floor("R21.6", f"in_progress_update sites in poll_complete_with_code {tag}", len(ups), 1)
         code_arg = arg_of_type(g, lambda t: t.replace(" ", "") == "core::option::Option<u32>")
+        rep.ob("R21.6", f"poll_complete_with_code: in_progress_update at most once per delivered status {tag}",
+               all(not g.in_cycle(k.bb) and not ((g.reachable(k.bb) - {k.bb}) & {q.bb for q in ups}) for k in ups), "", g.loc())
         for k in ups:
             rep.ob("R21.6", f"poll_complete_with_code: in_progress_update receives the delivered code {tag}",
                    _is_arg(g.origin(k.args[2]), code_arg, ("as Some", ".0")), "", g.loc(k.bb))
